@@ -406,7 +406,9 @@ def run_property(pid, tier, seed, jobs, budget_s, out=print):
     for s in list(new):
         case, msg = new[s]
         try:
-            new[s] = (minimise(mod, case, s, max_runs=1500, deadline=time.time() + 60), msg)
+            small = minimise(mod, case, s, max_runs=1500, deadline=time.time() + 60)
+            _, bad = execute(mod, small)
+            new[s] = (small, bad[1] if bad and bad[0] == s else msg)
         except FATAL:
             pass
 
